@@ -177,3 +177,54 @@ func (b *recBatch) Commit(ctx context.Context) error {
 }
 
 var _ datastore.Batching = (*RecDS)(nil)
+
+// NewTransaction provides read-only snapshot transactions (datastore.TxnFeature), as the
+// context-aware flavour of the Store uses them to couple related reads.
+func (d *RecDS) NewTransaction(ctx context.Context, readOnly bool) (datastore.Txn, error) {
+	if !readOnly {
+		return nil, datastore.ErrBatchUnsupported
+	}
+	d.mu.Lock()
+	defer d.mu.Unlock()
+	res, err := d.inner.Query(ctx, query.Query{})
+	if err != nil {
+		return nil, err
+	}
+	es, err := res.Rest()
+	if err != nil {
+		return nil, err
+	}
+	snap := datastore.NewMapDatastore()
+	for _, e := range es {
+		_ = snap.Put(ctx, datastore.NewKey(e.Key), e.Value)
+	}
+	return &recTxn{snap: snap, d: d}, nil
+}
+
+type recTxn struct {
+	snap *datastore.MapDatastore
+	d    *RecDS
+}
+
+func (t *recTxn) Get(ctx context.Context, key datastore.Key) ([]byte, error) {
+	v, err := t.snap.Get(ctx, key)
+	if hook := t.d.OnGet; hook != nil {
+		hook(key.String(), err == nil)
+	}
+	return v, err
+}
+func (t *recTxn) Has(ctx context.Context, key datastore.Key) (bool, error) { return t.snap.Has(ctx, key) }
+func (t *recTxn) GetSize(ctx context.Context, key datastore.Key) (int, error) {
+	return t.snap.GetSize(ctx, key)
+}
+func (t *recTxn) Query(ctx context.Context, q query.Query) (query.Results, error) {
+	return t.snap.Query(ctx, q)
+}
+func (t *recTxn) Put(ctx context.Context, key datastore.Key, value []byte) error {
+	return datastore.ErrBatchUnsupported
+}
+func (t *recTxn) Delete(ctx context.Context, key datastore.Key) error { return datastore.ErrBatchUnsupported }
+func (t *recTxn) Commit(ctx context.Context) error                    { return nil }
+func (t *recTxn) Discard(ctx context.Context)                         {}
+
+var _ datastore.TxnFeature = (*RecDS)(nil)
